@@ -17,6 +17,85 @@ FIXED = ["rational64", "i64", "i32", "u64"]
 BASES = ["si", "kgh", "cgs"]
 
 
+PRIM_TYPES = {"i64": (-2**63, 2**63 - 1), "i32": (-2**31, 2**31 - 1), "u64": (0, 2**64 - 1), "i8": (-128, 127)}
+PRIM_OPS = {"mul": 0, "div": 1, "add": 2, "sub": 3, "cmp": 4, "pow": 5, "toi": 6, "new": 7}
+
+
+def prim_slot(ity):
+    """Raw num-rational operations on Ratio<iN> (the dependency that Model/Fixed.v transcribes)."""
+    return f"""    type I = {ity};
+    type R = uom::num::rational::Ratio<I>;
+    let z = |s: &str| s.parse::<I>().unwrap();
+    let sh = |x: R| format!("{{}}/{{}}", x.numer(), x.denom());
+    let x = R::new_raw(z(a[1]), z(a[2]));
+    let y = || R::new_raw(z(a[3]), z(a[4]));
+    match a[0] {{
+        "mul" => sh(x * y()),
+        "div" => sh(x / y()),
+        "add" => sh(x + y()),
+        "sub" => sh(x - y()),
+        "cmp" => match x.cmp(&y()) {{ std::cmp::Ordering::Less => "-1".to_string(), std::cmp::Ordering::Equal => "0".to_string(), _ => "1".to_string() }},
+        "pow" => sh(x.pow(a[3].parse::<i32>().unwrap())),
+        "toi" => x.to_integer().to_string(),
+        "new" => sh(R::new(z(a[1]), z(a[2]))),
+        _ => "BADOP".to_string(),
+    }}"""
+
+
+def prim_ratios(rng, lo, hi, n_random):
+    """Reduced ratios with positive denominators: the edges of the type and a random draw over all magnitudes."""
+    from math import gcd
+    nums = {0, 1, 2, 3, 5, 6, 7, 10, 12, 64, 100, hi, hi - 1, hi // 2, hi // 2 + 1, hi // 3}
+    if lo < 0:
+        nums |= {-x for x in (1, 2, 3, 5, 6, 7, 10, 12, 64, 100)} | {lo, lo + 1, lo // 2, lo // 3}
+    dens = {1, 2, 3, 4, 5, 6, 7, 10, 12, 64, 100, hi, hi - 1, hi // 2 + 1}
+    for _ in range(n_random):
+        e = rng.below(hi.bit_length()) + 1
+        v = rng.below(1 << e)
+        nums.add(-v if lo < 0 and rng.below(2) else v)
+        e = rng.below(hi.bit_length()) + 1
+        dens.add(1 + rng.below(1 << e))
+    nums = sorted(x for x in nums if lo <= x <= hi)
+    dens = sorted(x for x in dens if 1 <= x <= hi)
+    return [(n, d) for n in nums for d in dens if gcd(n, d) == 1], nums
+
+
+def fixed_values(rng, ty, k, quick):
+    """Values over the WHOLE range of a fixed-width type: edges, both sides of the overflow thresholds of v * numer(k) and
+    v * denom(k), random magnitudes; for rational storage also denominators of every size."""
+    st = STYPES[ty]
+    lo, hi = st["lo"], st["hi"]
+    ints = {0, 1, 7, hi, hi - 1, hi // 2}
+    if lo < 0:
+        ints |= {-1, -7, lo, lo + 1, lo // 2}
+    if k:
+        for m in (abs(k.numerator), k.denominator):
+            if m > 1:
+                t = hi // m
+                ints |= {t - 1, t, t + 1, t + 2}
+                if lo < 0:
+                    ints |= {-t - 2, -t - 1, -t, -t + 1}
+    for _ in range(4 if quick else 16):
+        e = rng.below(hi.bit_length())
+        v = (1 << e) + rng.below(1 << e)
+        ints.add(-v if lo < 0 and rng.below(2) else v)
+    ints = sorted(x for x in ints if lo <= x <= hi)
+    if st["cls"] == "z":
+        return ints
+    dens = [1, 1, 2, 3, 7, 10, 1000, 1 << 20, 10**9 + 7, (1 << 62) - 57]
+    out = []
+    for n in ints:
+        d = dens[rng.below(len(dens))]
+        f = Fraction(n, d)
+        if lo <= f.numerator <= hi:
+            out.append(f)
+    return out
+
+
+def wpair(f):
+    return f"({f.numerator} {f.denominator})"
+
+
 def small_coef(u, bits):
     n, d = abs(int(u["coef_q"][0])), int(u["coef_q"][1])
     return n < 2 ** bits and d < 2 ** bits
@@ -53,9 +132,7 @@ def run(ctx):
                 neg_coef = T.frac(u["coef"]) < 0
                 if ty in ("biguint", "u64") and (neg_coef or (u["const"] is not None and T.frac(u["const"]) < 0)):
                     continue
-                if ty in FIXED and not (small_coef(u, 20) and all(abs(e) <= 2 for e in q["dim"])):
-                    continue
-                if ty in FIXED and bs == "kgh" and sum(abs(e) for e in q["dim"]) > 3:
+                if ty in FIXED and not (small_coef(u, 40) and all(abs(e) <= 3 for e in q["dim"])):
                     continue
                 sl = h.slot(X.conv_slot(q, u, bs, ty))
                 rng = ctx.rng.fork(f"{ty}:{bs}:{q['module']}:{u['name']}")
@@ -79,6 +156,11 @@ def run(ctx):
                             v = Fraction(rng.below(201) - 100, 1 + rng.below(8))
                     vals.append(v)
                 vals += ([0, 1, -1, 7, -7] if st.get("lo", -1) != 0 and ty != "biguint" else [0, 1, 7]) if cls == "z" else [Fraction(0), Fraction(1), Fraction(-7, 2)]
+                if ty in FIXED:
+                    # the whole range: which of these overflow is decided by Model/Fixed.v, case by case
+                    kq = Fraction(int(u["coef_q"][0]), int(u["coef_q"][1]))
+                    more = fixed_values(rng, ty, kq, quick)
+                    vals = list(dict.fromkeys(vals + more))
                 for v in vals:
                     for d in ("n", "g"):
                         cid = f"v{len(cases)}"
@@ -87,6 +169,40 @@ def run(ctx):
                         meta[cid] = (d, ty, bs, q, u, v, sl)
                         if ty in BIG:
                             mlines.append(f"{cid} {cls} - ({'new' if d == 'n' else 'get'} {U} {T.zlist(q['dim'])} {T.sexp(u['coef'])} {T.sexp(u['const'])} {model_val(ty, txt)})")
+    # the tie of Model/Fixed.v to num-rational's Ratio<iN>: single operations on edge values and random magnitudes
+    prim_cases, plines = {}, []
+    for ity, (lo, hi) in PRIM_TYPES.items():
+        sl = h.slot(prim_slot(ity))
+        prng = ctx.rng.fork(f"prim:{ity}")
+        rs, nums = prim_ratios(prng, lo, hi, 12 if quick else 40)
+        npairs = 2500 if quick else 20000
+        for _ in range(npairs):
+            x, y = rs[prng.below(len(rs))], rs[prng.below(len(rs))]
+            for op in ("mul", "div", "add", "sub", "cmp"):
+                cid = f"p{len(cases)}"
+                cases.append((cid, sl, [op, str(x[0]), str(x[1]), str(y[0]), str(y[1])]))
+                meta[cid] = ("prim", ity, None, None, None, None, sl)
+                plines.append(f"{cid} w - (prim {lo} {hi} {PRIM_OPS[op]} ({x[0]} {x[1]}) ({y[0]} {y[1]}))")
+                prim_cases[cid] = (ity, op, x, y)
+        for x in rs[:: max(1, len(rs) // (300 if quick else 3000))]:
+            for e in (-7, -3, -2, -1, 0, 1, 2, 3, 5, 8, 63):
+                cid = f"p{len(cases)}"
+                cases.append((cid, sl, ["pow", str(x[0]), str(x[1]), str(e), "1"]))
+                meta[cid] = ("prim", ity, None, None, None, None, sl)
+                plines.append(f"{cid} w - (prim {lo} {hi} 5 ({x[0]} {x[1]}) ({e} 1))")
+                prim_cases[cid] = (ity, "pow", x, (e, 1))
+            cid = f"p{len(cases)}"
+            cases.append((cid, sl, ["toi", str(x[0]), str(x[1]), "0", "1"]))
+            meta[cid] = ("prim", ity, None, None, None, None, sl)
+            plines.append(f"{cid} w - (prim {lo} {hi} 6 ({x[0]} {x[1]}) (0 1))")
+            prim_cases[cid] = (ity, "toi", x, (0, 1))
+        for _ in range(300 if quick else 3000):
+            n, d = nums[prng.below(len(nums))], nums[prng.below(len(nums))]
+            cid = f"p{len(cases)}"
+            cases.append((cid, sl, ["new", str(n), str(d), "0", "1"]))
+            meta[cid] = ("prim", ity, None, None, None, None, sl)
+            plines.append(f"{cid} w - (prim {lo} {hi} 7 ({n} {d}) (0 1))")
+            prim_cases[cid] = (ity, "new", (n, d), (0, 1))
     ctx.log(f"{len(h.slots)} slots, {len(cases)} cases; building harness")
     if not h.build():
         ctx.log(h.build_log[-3000:])
@@ -108,7 +224,48 @@ def run(ctx):
         m = meta[cid]
         if m[0] in ("c", "ka", "ks"):
             pub[(m[1], m[2], m[3]["module"], m[4]["name"], m[0])] = X.parse_factor(m[1], impl.get(cid))
+    # fixed-width classes: the model runs on the PUBLISHED coefficients (Ratio<iN>::from_f64 is the dependency's), every
+    # machine operation checked against the type's range
+    wlines, wdec = [], {}
+    for cid, sl, args in cases:
+        d, ty, bs, q, u, v, _ = meta[cid]
+        if d not in ("n", "g") or ty not in FIXED:
+            continue
+        k = pub.get((ty, bs, q["module"], u["name"], "c"))
+        cc = pub.get((ty, bs, q["module"], u["name"], "ka" if d == "n" else "ks"))
+        bc = basec.get((ty, bs))
+        if k is None or cc is None or bc is None or any(x is None for x in bc):
+            continue
+        st = STYPES[ty]
+        isint = st["cls"] == "z"
+        fv = Fraction(v)
+        wlines.append(f"{cid} w - ({'new' if d == 'n' else 'get'} {st['lo']} {st['hi']} {1 if isint else 0} ({' '.join(wpair(x) for x in bc)}) "
+                      f"{T.zlist(q['dim'])} {wpair(k)} {wpair(cc)} {wpair(fv)})")
+    wmodel = coqbuild.run_model(wlines + plines)
+    ctx.log(f"fixed-width model answered {len(wmodel)} of {len(wlines) + len(plines)}")
+    ctx.vm_crosscheck(wlines + plines[:2000], wmodel, n=30)
+
+    def wdecode(txt, isint):
+        f = (txt or "").split()
+        if not f:
+            return None
+        if f[0] == "0":
+            return "PANIC"
+        if f[0] == "1" and isint and len(f) == 2:
+            return f[1]
+        if f[0] == "1" and len(f) == 3:
+            return f"{f[1]}/{f[2]}"
+        return None
+
     spec_fail, disagreements = [], []
+    wstat = {"cases": 0, "model_value": 0, "model_panics": 0, "agree": 0}
+    w_impl_panics, w_model_panics, w_other = [], [], []
+    prim_bad = []
+    for cid, (ity, op, x, y) in prim_cases.items():
+        want = wdecode(wmodel.get(cid), op in ("cmp", "toi"))
+        got = impl.get(cid)
+        if want is None or got != want:
+            prim_bad.append((cid, ity, op, x, y, got, want))
     hist, distinct = {}, set()
     checked = panics_scoped = 0
     for cid, sl, args in cases:
@@ -129,6 +286,18 @@ def run(ctx):
                 pass        # unsigned storage cannot hold the (negative) result: the raw type's own subtraction panics
             elif got != want:
                 disagreements.append((cid, got, want))
+        if cid in wmodel:
+            want = wdecode(wmodel[cid], cls == "z")
+            wstat["cases"] += 1
+            wstat["model_panics" if want == "PANIC" else "model_value"] += 1
+            if got == want:
+                wstat["agree"] += 1
+            elif got == "PANIC":
+                w_impl_panics.append((cid, want))
+            elif want == "PANIC":
+                w_model_panics.append((cid, got))
+            else:
+                w_other.append((cid, got, want))
         if k is None or ca is None or cs is None or bc is None or any(x is None for x in bc) or k == 0:
             panics_scoped += 1      # coefficient not representable in this storage type: outside the property's scope
             continue
@@ -141,10 +310,15 @@ def run(ctx):
             continue
         if got in (None, "PANIC"):
             if ty in FIXED:
-                # fixed width: only cases whose every intermediate is far inside the type's range must not overflow
+                # fixed width: a panic is a violation when no intermediate of the transcribed evaluation (Model/Fixed.v) leaves the
+                # type's range -- or, independently of the model, when every intermediate is tiny
                 big = max(abs(x.numerator) + x.denominator for x in (Fraction(v) + ca, k, f, k / f, f / k, ex if ex else Fraction(1)))
+                mw = wdecode(wmodel.get(cid), cls == "z") if cid in wmodel else None
                 if big < 2 ** ((STYPES[ty]["hi"].bit_length()) // 2 - 2):
                     spec_fail.append((cid, f"conversion panicked although every intermediate is tiny for {ty} (exact result {ex})"))
+                elif mw not in (None, "PANIC"):
+                    spec_fail.append((cid, f"conversion panicked although no intermediate overflows {ty} in the order of operations of to_base/from_base "
+                                           f"(width-checked model: {mw}; exact result {ex})"))
                 else:
                     panics_scoped += 1
                 continue
@@ -166,6 +340,17 @@ def run(ctx):
 
     for cid, why in spec_fail[:5]:
         ctx.violation(replay_case(cid, {"spec": "C08: exact rational result of the conversion formula on the published coefficient/offset (truncated toward zero for integers)", "detail": why}))
+    if prim_bad:
+        cid, ity, op, x, y, got, want = prim_bad[0]
+        ctx.violation({"kind": "dependency model", "obligation": "Model/Fixed.v (width-checked Ratio<iN>) vs num-rational on single operations",
+                       "type": ity, "op": op, "x": list(x), "y": list(y), "implementation": got, "model": want, "count": len(prim_bad),
+                       "harness": {"features": h.features, "prelude": h.prelude, "cases": [{"slot_body": h.slots[meta[cid][6]], "args": next(a for c, s_, a in cases if c == cid)}]}},
+                      no_input=True)
+    if (w_model_panics or w_other) and not spec_fail:
+        cid = (w_model_panics or w_other)[0][0]
+        ctx.violation(replay_case(cid, {"obligation": "fixed-width correspondence: Model.Fixed (StQw/StZw, extracted) vs Quantity::new/get at Rational64/i64/i32/u64: "
+                                        "the implementation returns a value where the width-checked model overflows, or another value",
+                                        "model_w": wmodel.get(cid), "count": len(w_model_panics) + len(w_other)}), no_input=True)
     if disagreements and not spec_fail:
         cid, got, want = disagreements[0]
         ctx.violation(replay_case(cid, {"obligation": "exact correspondence Model.Run.q_run/z_run (extracted) vs Quantity::new/get at BigRational/BigInt/BigUint",
@@ -177,6 +362,11 @@ def run(ctx):
                    "non-integral) and Rational64/i64/i32/u64 (units with coefficient numerator/denominator < 2^20, |value| <= 1000) x base sets {SI, km-g-h, cgs}; "
                    "expected = exact rational formula on the PUBLISHED coefficient()/constant() of the storage type, truncated toward zero for integers; "
                    "Big* additionally equal to the extracted model")
+    wstat["impl_panics_model_value"] = len(w_impl_panics)
+    wstat["impl_value_model_panics"] = len(w_model_panics)
+    wstat["different_values"] = len(w_other)
+    cov["fixed_width"] = wstat
+    cov["dependency_model"] = {"single_operations": len(prim_cases), "disagreements": len(prim_bad), "types": sorted(PRIM_TYPES)}
     cov["spec_checked"] = checked
     cov["outside_scope_unrepresentable_or_wide"] = panics_scoped
     cov["disagreements_checked"] = len(disagreements)
